@@ -5,9 +5,16 @@ import (
 	"vh/fn"
 )
 
+func one(e core.Engine) func() []core.Engine { return func() []core.Engine { return []core.Engine{e} } }
+
 func registry() core.Registry {
 	return core.Registry{
-		"C03": func() []core.Engine { return []core.Engine{&fn.C03{}} },
+		"C03": one(&fn.C03{}),
+		"C05": one(&fn.C05{}),
+		"C06": one(&fn.C06{}),
+		"C10": one(&fn.C10{}),
+		"C14": one(&fn.C14{}),
+		"C15": one(&fn.C15{}),
 	}
 }
 
